@@ -58,7 +58,7 @@ func genC13(r *simrt.Rand, tier string) (Cfg, *Program) {
 		// the first consumer has a context and is restarted (or stopped and restarted) while
 		// items keep being announced: the new run must pull them like the first one did
 		pf.UseCtxPct = 70
-		pf.Ctrl = []wop{{opRestart, 4}, {opStop, 1}, {opPause, 1}, {opResume, 2}, {opSettle, 2}}
+		pf.Ctrl = []wop{{opRestart, 4}, {opStop, 1}, {opPause, 1}, {opResume, 2}, {opSettle, 2}, {opTune, 2}}
 		pf.CtrlOps = [2]int{1, 4}
 		pf.CtrlGapPct = 40
 	case 2:
